@@ -59,7 +59,10 @@ def opening_stream(ctx):
                               {"op": "reopen", "obs": ["force", "tapesha", "tree", "rows"], "tag": "open"}]
                 # afterwards: write through it, read back, and compare with a rebuild
                 nb = len(h["blobs"])
-                calls += [{"op": "mkdir", "name": "/post", "perm": 0o755, "tag": "post"}, {"op": "createfile", "name": "/post/f", "blob": nb, "tag": "post"},
+                # (a rename too: its records are computed from the names as the opened index spells them)
+                calls += [{"op": "mkdir", "name": "/post", "perm": 0o755, "tag": "post"}, {"op": "createfile", "name": "/post/g", "blob": nb, "tag": "post"},
+                          {"op": "mkdir", "name": "/post/d", "perm": 0o755, "tag": "post"}, {"op": "rename", "name": "/post/g", "name2": "/post/d/f", "tag": "post"},
+                          {"op": "rename", "name": "/post/d", "name2": "/post/e", "tag": "post"}, {"op": "rename", "name": "/post/e/f", "name2": "/post/f", "tag": "post"},
                           {"op": "readfile", "name": "/post/f", "tag": "readback", "obs": ["tree", "rebuild"]}]
                 # scratch reference for the opened view: recovery.Index(overwrite) of the same cut tape into a fresh index
                 calls += [{"op": "loaddrive", "name": "A", "off": n}, {"op": "newindex"}, {"op": "reindex", "flag": True, "obs": ["force", "tree"], "tag": "scratch"}]
@@ -101,7 +104,7 @@ def c16_oracle(d):
             if rb is not None:
                 live = {e["path"] for e in readback["obs"]["tree"]}
                 reb = {e["path"] for e in rb.get("tree", [])}
-                if rb.get("init") != "ok" or not {"/post", "/post/f"} <= reb:
+                if rb.get("init") != "ok" or not {"/post", "/post/f", "/post/e"} <= reb or ({"/post/g", "/post/d", "/post/d/f", "/post/e/f"} & (reb | live)):
                     fails.append(dict(kind="entry-written-after-opening-lost-by-rebuild", detail=[rb.get("init"), sorted(live - reb)[:4]]))
         else:
             fails.append(dict(kind="write-after-opening-failed", detail=[(r["out"], r.get("err")) for r in posts]))
